@@ -214,15 +214,16 @@ pub fn run(args: &Args) -> i32 {
                 }
                 for max_inflight in [1u8, 2, 3, 24, 255] {
                     for l in [1u8, 2, 3, 6, 0] {
-                        let big = u16::from(max_ttl - first_ttl) > 8 && max_inflight > 3;
+                        // the full bound on short ttl ranges, one less on long ones
+                        let big = u16::from(max_ttl - first_ttl) > 5 || (u16::from(max_ttl - first_ttl) > 2 && max_inflight > 3);
                         for latency in [0usize, 2] {
-                            tasks.push(Task { proto, first_ttl, max_ttl, max_inflight, l, rounds: 3, bound: if big { bound.min(2) } else { bound }, latency, ecmp: (0, 0) });
+                            tasks.push(Task { proto, first_ttl, max_ttl, max_inflight, l, rounds: 3, bound: if big { bound - 1 } else { bound }, latency, ecmp: (0, 0) });
                             // equal-cost branches of different length: the path is not stable, every
                             // other clause still holds (in particular: nothing is sent after the
                             // target has answered in the round)
                             if l >= 2 && latency == 2 && max_inflight >= 2 && max_ttl > l {
                                 for ecmp in [(1u8, 0u8), (1, 1), (2, 0), (2, 1)] {
-                                    tasks.push(Task { proto, first_ttl, max_ttl, max_inflight, l, rounds: 2, bound: if big { bound.min(2) } else { bound.min(3) }, latency, ecmp });
+                                    tasks.push(Task { proto, first_ttl, max_ttl, max_inflight, l, rounds: 2, bound: if big { bound - 1 } else { bound.min(3) }, latency, ecmp });
                                 }
                             }
                         }
